@@ -156,7 +156,11 @@ func runC04(c *harness.Ctx) {
 	}
 	inWindow := func(h, E int64) bool { return h >= E-1 && h <= E+1 }
 
-	nOps := 1 + t.Draw("nops", 10)
+	maxOps := 10
+	if c.Tier == "thorough" {
+		maxOps = 18
+	}
+	nOps := 1 + t.Draw("nops", maxOps)
 	var hist []string
 	for op := 0; op < nOps && !c.S.Violated(); op++ {
 		gap := []time.Duration{0, 0, time.Second, 10 * time.Minute, 59 * time.Minute, time.Hour, 2 * time.Hour, 3*time.Hour + 10*time.Minute, 2*time.Hour + 59*time.Minute + 59*time.Second}[t.Draw("gap", 9)]
